@@ -55,6 +55,8 @@ DEPENDS = {
             "C07": (["R2"], "delivery to each subscriber needs Event.notify's isolation")},
     "C20": {"C08": (["R1", "R2", "R3", "R8", "R9", "R10", "R11", "R12", "R13", "R14", "R15", "R16"], "mesh and animation codecs are built from the combinators"),
             "C12": (["R2", "R3", "R5", "R6", "R7"], "inventory LLSD flavours go through the LLSD codecs"),
+            "C10": (["R1"], "v1.0 animation key frames are quantised (PackedQuat(Vector3U16), QuantizedTime): an adapter around the "
+                            "quantiser that computes on the value moves codes the parser produced, parse -> serialise is no longer stable"),
             "C01": (["R16"], "animation key-frame rotations are written through PackedQuat -> Quaternion.data(3): W is dropped, so "
                              "the sign of X, Y, Z must be normalised or a key frame with W < 0 parses back as another rotation")},
 }
